@@ -141,7 +141,24 @@ func TestVerifC09(t *testing.T) {
 			q.NoTLS = true
 		case "tls-without-cert":
 		}
-		return e.DoAdmin(q.Build())
+		// an injection answers (the passphrase prompt fails fast); one that is still inside the unseal code after a
+		// minute, holding the state lock, has hung the daemon: every later request would block behind it
+		ch := make(chan *verifResp, 1)
+		go func() { ch <- e.DoAdmin(q.Build()) }()
+		select {
+		case r := <-ch:
+			return r
+		case <-time.After(60 * time.Second):
+			buf := make([]byte, 1<<20)
+			dump := string(buf[:runtimeStack(buf)])
+			if strings.Contains(dump, "unsealCA") || strings.Contains(dump, "pgpDecryptFileData") {
+				rep.Violate("C09/injection-never-answers", "an injection was still inside the unseal code after 60 s (the state lock is held: readiness, the sealed checks and further injections block behind it)",
+					map[string]interface{}{"passphrase_length": len(pass), "mode": mode})
+			} else {
+				rep.Inconc("an injection did not answer within 60 s and is not inside the unseal code")
+			}
+			return nil
+		}
 	}
 	right := c09Passphrase
 	oneBit := []byte(right)
@@ -156,6 +173,9 @@ func TestVerifC09(t *testing.T) {
 	}
 	for name, pw := range wrong {
 		r := inject(env, pw, "verified-cert")
+		if r == nil {
+			t.SkipNow() // recorded above; nothing after this can be served
+		}
 		rep.Eval("inject|wrong:" + strings.Split(name, "-")[0] + fmt.Sprintf("|%d", r.Code/100))
 		rep.Count("wrong_passphrases", 1)
 		if !env.IsSealed() || r.Code == 200 {
@@ -165,6 +185,9 @@ func TestVerifC09(t *testing.T) {
 	}
 	for _, mode := range []string{"no-tls", "tls-without-cert"} {
 		r := inject(env, right, mode)
+		if r == nil {
+			t.SkipNow()
+		}
 		rep.Eval("inject|right|" + mode + fmt.Sprintf("|%d", r.Code/100))
 		if !env.IsSealed() || r.Code == 200 {
 			rep.Violate("C09/unsealed-without-verified-certificate/"+mode, "the right passphrase without a verified client certificate unsealed the server", map[string]interface{}{"mode": mode, "status": r.Code})
@@ -236,6 +259,9 @@ func TestVerifC09(t *testing.T) {
 				}
 				<-start
 				r := inject(e, pw, "verified-cert")
+				if r == nil {
+					r = &verifResp{Code: 0}
+				}
 				mu.Lock()
 				switch {
 				case r.Code == 200:
@@ -252,6 +278,9 @@ func TestVerifC09(t *testing.T) {
 		iw.Wait()
 		// one more right injection afterwards: must be refused as already unlocked
 		r := inject(e, right, "verified-cert")
+		if r == nil {
+			r = &verifResp{Code: 0}
+		}
 		time.Sleep(20 * time.Millisecond)
 		close(stop)
 		wg.Wait()
